@@ -197,5 +197,16 @@ theorem checkUpdate_unreach_ok (i : Input) (f : Fam) (es : List Entry)
     obtain ⟨sl, _, rfl⟩ := List.mem_map.mp hc
     simp
   simp only [List.any_nil, Bool.false_eq_true, if_false, hfam, hents, compareEntries_ok v6 ap es hes hp]
+  have herrs : (L.map (fun sl => qUnreach legacy f (sl.map (decE v6 ap)))).any updHasErrs = false := by
+    rw [List.any_eq_false]
+    intro x hx
+    obtain ⟨sl, _, rfl⟩ := List.mem_map.mp hx
+    cases legacy <;> simp [qUnreach, updHasErrs]
+  have hgot : (L.map (fun sl => qUnreach legacy f (sl.map (decE v6 ap)))).any updHasAttrs = false := by
+    rw [List.any_eq_false]
+    intro x hx
+    obtain ⟨sl, _, rfl⟩ := List.mem_map.mp hx
+    cases legacy <;> simp [qUnreach, updHasAttrs]
+  simp only [herrs, hgot, Bool.false_eq_true, if_false]
 
 end Rbgp.Enc
